@@ -217,7 +217,7 @@ func init() {
 			// the same with a root file system image at "/" (and at /usr): most of its directories belong to the filesystem
 			// package - implied rather than claimed; only an explicitly declared directory may take their place
 			for _, tr := range []model.Entry{{Src: "rootfs", Dst: "/", Type: "tree"}, {Src: "rootfs/usr", Dst: "/usr", Type: "tree"}, {Src: "rootfs/etc", Dst: "/etc/", Type: "tree", Owner: "app"}} {
-				for _, d := range []string{"/etc", "/usr", "/usr/share", "/usr/bin", "/etc/app", "/etc/logrotate.d", "/usr/share/licenses/logrotate", "/opt", "/opt/x", "/usr/bin/tool", "/etc/app/app.conf", "/var/lib/logrotate"} {
+				for _, d := range []string{"/etc", "/usr", "/usr/share", "/usr/bin", "/etc/app", "/etc/logrotate.d", "/usr/share/licenses/logrotate", "/opt", "/opt/x", "/usr/bin/tool", "/etc/app/app.conf", "/var/lib/logrotate", "/mnt"} {
 					for _, t := range inT {
 						e := t
 						e.Dst = d
